@@ -529,6 +529,9 @@ def run(ck: vlib.Check):
         ok = ck.compile_gen(["SymMatrixCode.v"])
     # ---- 2 prove
     proved = ok and ck.prove(["C16Proofs.v"], "C16.v")
+    if not ok:  # the theorems exist but could not be checked against this tree
+        for nm in re.findall(r"^(?:Theorem|Example)\s+(\w+)", (vlib.COQ / "Props" / "C16.v").read_text(), flags=re.M):
+            ck.obligations.append({"name": nm, "status": "not-checked", "assumptions": None})
     # ---- 3a native tie
     grid, streams = gen_cases(ck, 12 if quick else 24, 40 if quick else 330, 60 if quick else 400)
     big = [] if quick else [(tri(46341), 46341), (tri(46341) - 1, 46341), (tri(46342), 46342), (2 ** 31, 50000),
@@ -652,10 +655,18 @@ def run(ck: vlib.Check):
             ck.sample({"kind": "packed-stream", "flat_size": s["flat"], "full_dim": s["dim"], "objects": s["nobj"],
                        "values_hex": ["%016x" % x for x in s["vals"][:8]]})
     # ---- 3b python end-to-end
-    idxmaps = {}
-    for n in range(0, 13):
-        idxmaps[str(n)] = model_maps[n] if model_maps is not None else [pidx(i, j) for i in range(n) for j in range(n)]
-    inp = {"spec_items": SPEC_ITEMS, "idxmaps": idxmaps, "idxmaps_from_model": model_maps is not None,
+    # the fixture comparison is judged against the SPECIFICATION's index map (a direct statement of the property on the
+    # implementation); the regenerated model's map is compared with it separately (the Python route runs the pinned .so,
+    # so a working-tree C++ edit shows up here as model != spec, and in the native runs as a concrete failing input)
+    idxmaps = {str(n): [pidx(i, j) for i in range(n) for j in range(n)] for n in range(0, 13)}
+    if model_maps is not None:
+        for n in range(0, 13):
+            if model_maps[n] != idxmaps[str(n)]:
+                k = next(i for i, (a, b) in enumerate(zip(model_maps[n], idxmaps[str(n)])) if a != b)
+                ck.tie_broken("correspondence", f"index-map n={n}", f"regenerated read_indices gives {model_maps[n][k]} at (i={k // n}, j={k % n}), "
+                              f"specification {idxmaps[str(n)][k]}")
+                break
+    inp = {"spec_items": SPEC_ITEMS, "idxmaps": idxmaps, "idxmaps_from_model": False,
            "dim_inputs": dim_inputs, "dim_model": model_dims, "n_factory": 3000 if quick else 46341,
            "fixtures": str(vlib.REPO / "tests" / "data")}
     ipath = ck.bdir / "py_cases.json"
@@ -669,7 +680,7 @@ def run(ck: vlib.Check):
         ck.cases_bulk(r["entries_compared"] + r["factory_calls"], {bytes.fromhex(h) for h in r["hashes"]})
         for s in r["samples"][:4]:
             ck.sample(s)
-        for m in r["mismatches"]:
+        for m in r["mismatches"][:8]:
             ck.violation(m["key"], m["what"], m)
         for m in r["tie"]:
             ck.tie_broken("correspondence", m["name"], m["detail"])
@@ -679,6 +690,48 @@ def run(ck: vlib.Check):
 
 
 def replay(path):
+    """re-run the concrete failing input of a replay file on the current working tree; exit status 1 = still fails"""
     data = json.load(open(path))
-    print(json.dumps(data, indent=1)[:4000])
-    return 1
+    key = data.get("key") or ""
+    print(f"replay {key}: {str(data.get('what'))[:400]}")
+    rp = data.get("replay") or {}
+    if key.startswith("C16:ctor:") or key.startswith("C16:expand:") or key.startswith("C16:native-abort"):
+        exe, err = build_native(None, vlib.SRC)
+        if exe is None:
+            print("native build failed:", err); return 1
+        if key.startswith("C16:ctor:"):
+            f, d = int(rp.get("flat_size", rp.get("flat"))), int(rp.get("full_dim", rp.get("dim")))
+            rc, so, se = run_native(exe, [f"C {f} {d}"])
+            got = [l.split()[3] for l in so.splitlines() if l.startswith("C ")]
+            want = "A" if tri(d) <= f else "X"
+            print(f"constructor({f},{d}) -> {got} (required {want}) rc={rc}")
+            return 0 if rc == 0 and got == [want] else 1
+        if key.startswith("C16:expand:"):
+            c = rp["case"]
+            line = f"R {c['flat']} {c['dim']} {c['nobj']} {len(c['vals'])} " + " ".join("%016x" % x for x in c["vals"])
+        else:
+            line = rp["input"]
+        rc, so, se = run_native(exe, [line])
+        recs = [l.split() for l in so.splitlines() if l.startswith("R ") or l.startswith("C ")]
+        if rc != 0 or not recs:
+            print(f"aborted rc={rc}: {se[-600:]}"); return 1
+        if key.startswith("C16:expand:"):
+            a = recs[0]
+            got = None if a[4] == "X" else [int(a[5])] + [int(x, 16) for x in a[6:]]
+            want = [c["flat"] * c["nobj"]] + spec_expand(c["flat"], c["dim"], c["vals"], c["nobj"]) if tri(c["dim"]) <= c["flat"] else None
+            print("output", "equals" if got == want else "DIFFERS from", "packed[max(max+1)/2+min] expansion")
+            return 0 if got == want else 1
+        return 0
+    idxmaps = {str(n): [pidx(i, j) for i in range(n) for j in range(n)] for n in range(0, 13)}
+    ipath = vlib.BUILD / "C16_replay_cases.json"
+    ipath.write_text(json.dumps({"spec_items": SPEC_ITEMS, "idxmaps": idxmaps, "dim_inputs": [], "dim_model": [], "n_factory": 3000,
+                                 "fixtures": str(vlib.REPO / "tests" / "data")}))
+    rc, so, se = vlib.run_impl_script("c16_impl.py", [ipath], timeout=1500)
+    if rc != 0:
+        print(se[-1500:]); return 1
+    hits = [m for m in json.loads(so)["mismatches"] if m["key"] == key]
+    for m in hits[:3]:
+        print("still failing:", m["what"][:400])
+    if not hits:
+        print("no longer failing on this tree")
+    return 1 if hits else 0
